@@ -66,7 +66,7 @@ def run_conv(c):
     from opacus.grad_sample.conv import compute_conv_grad_sample
     g = torch.Generator().manual_seed(c['seed'])
     G, cg, og, Kk, stride, dil, pad, L = c['G'], c['cg'], c['og'], c['K'], c['stride'], c['dil'], c['pad'], c['L']
-    layer = nn.Conv1d(G * cg, G * og, Kk, stride=stride, padding=pad, dilation=dil, groups=G, bias=True)
+    layer = nn.Conv1d(G * cg, G * og, Kk, stride=stride, padding=pad, dilation=dil, groups=G, bias=True, padding_mode=c.get('pmode', 'zeros'))
     x = torch.randint(-3, 4, (1, G * cg, L), generator=g).double()
     if pad == 'same':
         tot = dil * (Kk - 1)
@@ -75,7 +75,7 @@ def run_conv(c):
         lp = rp = 0
     else:
         lp = rp = pad
-    xp = F.pad(x, (lp, rp))
+    xp = F.pad(x, (lp, rp)) if c.get('pmode', 'zeros') == 'zeros' else F.pad(x, (lp, rp), mode=c['pmode'])
     P = (xp.shape[-1] - dil * (Kk - 1) - 1) // stride + 1
     bp = torch.randint(-3, 4, (1, G * og, P), generator=g).double()
     r = compute_conv_grad_sample(layer, [x], bp)
